@@ -1,6 +1,6 @@
 SPECIFICATION Spec
 CONSTANTS
-  Cases <- MCCases
+  Cases <- MCCasesSmall
   Export = FALSE
   Dev_S8_NegIndex = TRUE
   Dev_S4_ExtDataNoRecord = FALSE
